@@ -112,6 +112,7 @@ SPEC = dict(
         'atomics sequentially consistent (memory orders dropped)',
         'N = number of senders symbolic, 1 <= N <= 2^32',
         'stopSource_.request_stop() may complete children synchronously: modelled as an environment step inside EV_stop_children',
+        'FINDING (not repaired): the documented rule "the result is always the completion result of the first sender to complete, even if done or error; lagging values are discarded" does not hold when the first completion is done (or error with a stopped receiver): a lagging value still wins call_once and is delivered (probes/native/when_any_first_done_lagging_value.cpp; specs/when_any/proposed_repair.diff). The obligation is unit store_result_lagging_discarded, tier=thorough only; the quick tier proves the weaker rule "the first VALUE wins, the first finisher\'s error wins over values unless the receiver was stopped"',
         'order of completions: a child "has completed before" another iff it released its when_all unit before the other one\'s completion call began (overlapping completions are unordered: any of them may be the first)',
     ],
     drops=['memory orders', 'template genericity (Result..., Senders...: one symbolic N)', 'payload: the stored tuple, the error object (only "which channel" and "slot engaged" are kept)',
